@@ -572,7 +572,8 @@ fn gen_bits(r: &mut Rng, out: &mut dyn Write) {
             _ => { ops.push("more".to_string()); if r.below(3) == 0 { while w.bits.len() % 8 != 0 { w.b(r.flag()); ops.push("b".to_string()); } w.u(8, r.next() & 0xff); ops.push("rd".to_string()); if r.flag() { ops.push("more".to_string()); } } }
         }
     }
-    match r.below(5) { 0 => { w.b(true); ops.push("finish".into()); } 1 => { w.b(true); ops.push("seifinish".into()); } 2 => { ops.push("seifinish".into()); } 3 => { ops.push("more".into()); ops.push("finish".into()); } _ => {} }
+    match r.below(6) { 5 => { w.b(true); ops.push("more".into()); ops.push(r.pick_str(&["ue", "se", "b", "u1"]).to_string()); ops.push(r.pick_str(&["finish", "seifinish", "more"]).to_string()); }
+        0 => { w.b(true); ops.push("finish".into()); } 1 => { w.b(true); ops.push("seifinish".into()); } 2 => { ops.push("seifinish".into()); } 3 => { ops.push("more".into()); ops.push("finish".into()); } _ => {} }
     let mut d = w.bytes();
     for _ in 0..r.below(3) { d.push(if r.below(3) == 0 { r.next() as u8 } else { 0 }); }
     // truncation at an arbitrary byte
@@ -641,7 +642,7 @@ pub fn gen_sps(r: &mut Rng) -> (Vec<u8>, SpsInfo) {
     let mut w = W::with_alias(r); let mut f = Faults::new(r);
     let profile = r.pick(&[66, 77, 88, 100, 110, 122, 244, 44, 83, 86, 118, 128, 138, 139, 134, 135, 0, 255]);
     let profile = if r.below(6) == 0 { profile } else { r.pick(&[66, 77, 88, 100, 110, 122, 244, 44, 83, 86]) };
-    let id = if f.hit(r, 6) { 32 } else if r.below(10) == 0 { 31 } else { r.below(3) };
+    let id = if f.hit(r, 6) { 32 } else if r.below(10) == 0 { r.pick(&[31, 15, 14, 16]) } else { r.below(3) };
     let lv_r = r.below(256); w.u(8, profile).u(8, r.below(256)).u(8, r.pick(&[10, 11, 30, 40, 51, lv_r])).ue(id);
     let mut chroma_idc = 1; let mut separate = false; let mut bd_luma = 0;
     if [100, 110, 122, 244, 44, 83, 86, 118, 128, 138, 139, 134, 135].contains(&profile) {
@@ -658,8 +659,8 @@ pub fn gen_sps(r: &mut Rng) -> (Vec<u8>, SpsInfo) {
     if poc_type == 0 { log2poc = if f.hit(r, 5) { 13 } else { r.below(13) }; w.ue(log2poc); }
     if poc_type == 1 { always_zero = r.flag(); w.b(always_zero).se(se_val(r, 100)).se(se_val(r, 100)); let n = if f.hit(r, 4) { 256 } else { r.pick(&[0, 1, 2, 3, 7, 255]) }; w.ue(n); for _ in 0..n { w.se(se_val(r, 5)); } }
     let mr = r.below(5); w.ue(mr).b(r.flag());
-    let wd = if r.below(8) == 0 { r.pick(&[65535, 65536, (1u64 << 32) - 2, 1 << 27, (1 << 28) - 1, (1 << 31) - 2, (1 << 31) - 1, 1 << 31, 199_999_999, 199_999_999, 150_000_000]) } else { r.below(30) };
-    let ht = if r.below(8) == 0 { r.pick(&[65535, 65536, (1u64 << 32) - 2, 1 << 27, (1 << 27) - 1]) } else { r.below(30) };
+    let wd = if r.below(10) == 0 { r.pick(&[351, 239, 351, 119]) } else if r.below(8) == 0 { r.pick(&[65535, 65536, (1u64 << 32) - 2, 1 << 27, (1 << 28) - 1, (1 << 31) - 2, (1 << 31) - 1, 1 << 31, 199_999_999, 199_999_999, 150_000_000]) } else { r.below(30) };
+    let ht = if wd >= 79 && wd <= 351 { r.pick(&[287, 134, 287, 67]) } else if r.below(8) == 0 { r.pick(&[65535, 65536, (1u64 << 32) - 2, 1 << 27, (1 << 27) - 1]) } else { r.below(30) };
     w.ue(wd).ue(ht);
     let fmo = r.flag(); w.b(fmo); if !fmo { w.b(r.flag()); }
     w.b(r.flag());
@@ -674,12 +675,13 @@ pub fn gen_sps(r: &mut Rng) -> (Vec<u8>, SpsInfo) {
         let vs = r.flag(); w.b(vs); if vs { w.u(3, r.below(8)).b(r.flag()); let cd = r.flag(); w.b(cd); if cd { w.u(8, r.below(256)).u(8, r.below(256)).u(8, r.below(256)); } }
         let cl = r.flag(); w.b(cl); if cl { let c1 = if f.hit(r, 5) { 6 } else { r.below(6) }; let c2 = if f.hit(r, 5) { 6 } else { r.below(6) }; w.ue(c1).ue(c2); }
         let ti = r.flag(); w.b(ti); if ti { let a = match r.below(4) { 0 => 0, 1 => 0xffff_ffff, _ => r.next() & 0xffff_ffff }; let b = match r.below(4) { 0 => 0, 1 => 0xffff_ffff, _ => r.next() & 0xffff_ffff }; w.u(32, a).u(32, b).b(r.flag()); }
+        let max_hrd = r.below(25) == 0;   // both HRDs with 32 CPB entries and 32-bit fields: the longest buffering_period / pic_timing messages
         for k in 0..2 {
-            let h = r.below(3) == 0; w.b(h);
+            let h = max_hrd || r.below(3) == 0; w.b(h);
             if h {
-                let cnt = if f.hit(r, 4) { 32 } else { r.pick(&[0, 0, 1, 2, 31]) }; w.ue(cnt); w.u(4, r.below(16)).u(4, r.below(16));
+                let cnt = if max_hrd { 31 } else if f.hit(r, 4) { 32 } else { r.pick(&[0, 0, 1, 2, 31]) }; w.ue(cnt); w.u(4, r.below(16)).u(4, r.below(16));
                 for _ in 0..=cnt { w.ue(small_ue(r)).ue(small_ue(r)).b(r.flag()); }
-                let (a, b, c, d) = if r.below(6) == 0 { (31, 31, 31, 31) } else { (r.pick(&[0, 4, 23, 31]), r.pick(&[0, 4, 23, 31]), r.pick(&[0, 4, 23, 31]), r.pick(&[0, 1, 5, 24, 31])) };
+                let (a, b, c, d) = if max_hrd || r.below(6) == 0 { (31, 31, 31, 31) } else { (r.pick(&[0, 4, 23, 31]), r.pick(&[0, 4, 23, 31]), r.pick(&[0, 4, 23, 31]), r.pick(&[0, 1, 5, 24, 31])) };
                 w.u(5, a).u(5, b).u(5, c).u(5, d);
                 if k == 0 { nal_hrd = Some((cnt, a, b, c, d)); } else { vcl_hrd = Some((cnt, a, b, c, d)); }
             }
@@ -706,7 +708,7 @@ pub fn gen_pps(r: &mut Rng, spss: &[SpsInfo]) -> (Vec<u8>, PpsInfo) {
     w.ue(id).ue(sps_id);
     let entropy = r.flag(); let bottom = r.flag(); w.b(entropy).b(bottom);
     let size = ((s.w + 1) * (s.h + 1)).min((1u64 << 32) - 1);
-    let n = if f.hit(r, 8) { 8 } else if r.below(3) == 0 { r.pick(&[1, 2, 3, 7]) } else { 0 }; w.ue(n);
+    let n = if f.hit(r, 8) { 8 } else if r.below(3) == 0 || (size > 3000 && size < 200_000 && r.flag()) { r.pick(&[1, 2, 3, 7]) } else { 0 }; w.ue(n);
     if n > 0 && n <= 7 {
         let t = if f.hit(r, 8) { 7 } else { r.below(7) }; w.ue(t);
         match t {
@@ -716,7 +718,7 @@ pub fn gen_pps(r: &mut Rng, spss: &[SpsInfo]) -> (Vec<u8>, PpsInfo) {
                 let b = if f.hit(r, 4) { r.pick(&[size + 1, a.saturating_sub(1)]) } else if r.below(8) == 0 { r.pick(&[size, (1u64 << 32) - 2, (1u64 << 32) - 3]).min(size).max(a) } else { (a + r.below(4)).min(size) }; w.ue(a).ue(b.min((1u64 << 32) - 2)); } }
             3 | 4 | 5 => { w.b(r.flag()).ue(if f.hit(r, 3) { size.min((1u64 << 32) - 2) } else if r.below(4) == 0 { size - 1 } else { r.below(size.min(50)) }); }
             6 if size_mode(r, 20) => { big = true; let cnt = if r.flag() { r.pick(&[65535, 65536, 65537, 70000, 139263]) } else { (ladder(r, 17) as u64).min(150_000).max(2) - 1 }; w.ue(cnt); let bits = [0, 1, 2, 2, 3, 3, 3, 3][n as usize]; for _ in 0..=cnt { w.u(bits, if bits == 0 { 0 } else { r.below(n + 1) }); } }
-            6 if r.below(6) == 0 && size > 3000 => { let cnt = size - 1; w.ue(cnt.min((1u64 << 32) - 2)); let bits = [0, 1, 2, 2, 3, 3, 3, 3][n as usize]; for _ in 0..r.below(40) { w.u(bits, 0); } }
+            6 if size > 3000 && size < 200_000 && r.below(2) == 0 => { let cnt = size - 1; w.ue(cnt.min((1u64 << 32) - 2)); let bits = [0, 1, 2, 2, 3, 3, 3, 3][n as usize]; for _ in 0..r.below(40) { w.u(bits, 0); } }
             6 => { let cnt = if f.hit(r, 3) { r.pick(&[size.min(3000), 1 << 16, 1 << 24, (1 << 31) - 1, (1u64 << 32) - 2]) } else if r.below(6) == 0 { (size - 1).min(3000) } else { r.below(12).min(size - 1) }; w.ue(cnt); let bits = [0, 1, 2, 2, 3, 3, 3, 3][n as usize]; for _ in 0..=cnt.min(3000) { w.u(bits, if bits == 0 { 0 } else if f.hit(r, 9) { (n + 1).min((1 << bits) - 1) } else { r.below(n + 1) }); } }
             _ => {}
         }
@@ -797,7 +799,7 @@ fn gen_syntax(r: &mut Rng, n: usize, out: &mut dyn Write, derived: bool) {
     let mut run = Runner::new();
     while count < n {
         writeln!(out, "reset").unwrap(); run.run_line("reset"); count += 1;
-        let mut spss = vec![]; let mut ppss: Vec<PpsInfo> = vec![]; let mut last_sps: Option<Vec<u8>> = None; let mut last_pps: Option<Vec<u8>> = None;
+        let mut spss = vec![]; let mut ppss: Vec<PpsInfo> = vec![]; let mut last_sps: Option<Vec<u8>> = None; let mut last_pps: Option<Vec<u8>> = None; let mut pps_stores = 0usize;
         for _ in 0..(1 + r.below(2)) {
             let (mut d, info) = gen_sps(r);
             if r.below(12) == 0 { mutate(r, &mut d); }
@@ -810,7 +812,7 @@ fn gen_syntax(r: &mut Rng, n: usize, out: &mut dyn Write, derived: bool) {
             let (mut d, info) = gen_pps(r, &spss);
             let mutated = r.below(12) == 0; if mutated { mutate(r, &mut d); }
             let line = format!("pps {}", hex(&d)); writeln!(out, "{}{}", line, if info.big_ok && !mutated { " | ~^Ok\\(" } else { "" }).unwrap(); count += 1; if d.len() < 200 { last_pps = Some(d.clone()); }
-            if run.run_line(&line).starts_with("Ok") { ppss.retain(|q: &PpsInfo| q.id != info.id); ppss.push(info); }
+            if run.run_line(&line).starts_with("Ok") { pps_stores += 1; ppss.retain(|q: &PpsInfo| q.id != info.id); ppss.push(info); }
         }
         if ppss.is_empty() { continue; }
         if r.below(4) == 0 {
@@ -833,7 +835,10 @@ fn gen_syntax(r: &mut Rng, n: usize, out: &mut dyn Write, derived: bool) {
             for id in [order[255], order[0], order[255], order[128]] { let l = mk(r, id); writeln!(out, "{}", l).unwrap(); count += 1; run.run_line(&l); }
             writeln!(out, "dump").unwrap(); count += 1;
             // slices naming the ids that were sent again (and one that was not)
-            for id in [order[255], order[0], order[7], order[255]] {
+            // probes: the ids sent again, and the ids whose store was the 255th / 256th / 257th of this context (counting the earlier ones)
+            let mut probes = vec![order[255], order[0], order[7], order[255]];
+            for d in [254usize, 255, 256] { if d >= pps_stores && d - pps_stores < 256 { probes.push(order[d - pps_stores]); } }
+            for id in probes {
                 let info = PpsInfo { id, sps: 0, entropy: false, bottom: false, l0: 0, wp: false, wb: 0, qs: 0, deblock: false, redundant: false, big_ok: false };
                 let (hdr, d) = gen_slice(r, &spss[..1], &[info]); writeln!(out, "slice {:02x} {}", hdr, hex(&d)).unwrap(); count += 1; }
             continue;
